@@ -33,7 +33,8 @@ Common(I, X, res, who) ==
   LET R == ListOf(res)
       ok == res.status = "ok"
       allCoded == \A i \in 1..Len(R) : Coded(I, R[i])
-  IN (IF res.status \in {"ok", "valueerror"} THEN {} ELSE {"C09:" \o who \o "RaisesOnlyValueError"})
+  IN (IF res.status \in {"ok", "valueerror", "timeout"} THEN {} ELSE {"C09:" \o who \o "RaisesOnlyValueError"})
+     \cup (IF res.status = "timeout" THEN {"C09:" \o who \o "Terminates"} ELSE {})
      \cup (IF ok /\ \E i \in 1..Len(R) : ~Legal(I, R[i][1], R[i][2]) THEN {"C01:" \o who \o "Legal"} ELSE {})
      \cup (IF ok /\ \E i \in 1..Len(R) : ~TrtSizeOK(I, R[i][1], R[i][2]) THEN {"C02:" \o who \o "TreatmentSizeRange"} ELSE {})
      \cup (IF ok /\ \E i \in 1..Len(R) : ~CtlSizeOK(I, R[i][1], R[i][2]) THEN {"C02:" \o who \o "ControlSizeRange"} ELSE {})
